@@ -82,7 +82,7 @@ def _run_pwl(ctx, case, st):
   imin, imax = case["imin"], case["imin"] + case["irange"]
   omin, omax = case["omin"], case["omin"] + case["orange"]
   miss = case["missing"]
-  miv = float(np.float32(imin - 3.0)) if miss != "no" else None
+  miv = (0.0 if (rng.rand() < .3 and imin != 0.0) else float(np.float32(imin - 3.0))) if miss != "no" else None      # 0.0: a marker that is falsy (never one of the probed end keypoints)
   mov = float(omin + 0.25 * (omax - omin)) if miss == "value" else None
   out_size = nk - cmin - cmax - cyc + (miss == "derived")
   if out_size <= 0:
